@@ -60,6 +60,10 @@ func newGen(r *rng.R, family string) *gen {
 		if r.Chance(1, 6) {
 			names = []string{"e00", "e01", "e02", "e03", "e04", "e05", "e06", "e07", "e08", "e09", "e10"}
 			ne = 11
+		} else if r.Chance(1, 5) {
+			// exactly the allowed number of external extensions: all are launched, init completes
+			names = []string{"e00", "e01", "e02", "e03", "e04", "e05", "e06", "e07", "e08", "e09"}
+			ne = 10
 		}
 	}
 	if family == "restore" {
@@ -170,7 +174,12 @@ func (g *gen) next(w *world) []string {
 				add(3, "reset", []string{"timeout", "failure", "explicit"}[g.r.Intn(3)])
 			}
 		}
-		add(wInv, "invoke", fmt.Sprint(g.nextCaller), fmt.Sprint(sizes[g.r.Intn(len(sizes))]), fills[g.r.Intn(len(fills))])
+		if g.nextCaller > 0 && g.r.Intn(4) == 0 {
+			// the same trace header as the previous caller sent: the request ids must differ all the same
+			add(wInv, "invoke", fmt.Sprint(g.nextCaller), fmt.Sprint(sizes[g.r.Intn(len(sizes))]), fills[g.r.Intn(len(fills))], fmt.Sprintf("astrace=%d", g.nextCaller-1))
+		} else {
+			add(wInv, "invoke", fmt.Sprint(g.nextCaller), fmt.Sprint(sizes[g.r.Intn(len(sizes))]), fills[g.r.Intn(len(fills))])
+		}
 	}
 	if callers > 0 && conc > 0 {
 		add(conc, "invoke", fmt.Sprint(g.nextCaller), "5", "rand")
@@ -197,7 +206,11 @@ func (g *gen) next(w *world) []string {
 			continue
 		}
 		if !g.registered[e] {
-			add(30, "ext", e, "register", g.subs[e])
+			if g.r.Intn(3) == 0 { // with the account-id feature, in one of the spellings of an HTTP list
+				add(30, "ext", e, "register", g.subs[e], []string{"acct", "acct2", "acct3", "acct4"}[g.r.Intn(4)])
+			} else {
+				add(30, "ext", e, "register", g.subs[e])
+			}
 			add(misuse, "ext", e, "register", "B")
 			if s.AgentID(e) != "" && !blocked[e+".next"] {
 				// not yet registered in this generation: the identifier of the previous one is stale
@@ -235,7 +248,11 @@ func (g *gen) next(w *world) []string {
 		for _, n := range g.ints {
 			if !g.registered[n] {
 				if !g.rtAsked {
-					add(35, "int", n, "register", g.subs[n])
+					if g.r.Intn(4) == 0 {
+						add(35, "int", n, "register", g.subs[n], []string{"acct", "acct2", "acct3"}[g.r.Intn(3)])
+					} else {
+						add(35, "int", n, "register", g.subs[n])
+					}
 				} else {
 					add(misuse, "int", n, "register", g.subs[n])
 				}
